@@ -77,43 +77,37 @@ pub proof fn lemma_push_contains<T>(s: Seq<T>, v: T)
 // "when explicit watch paths are given": the directory is beneath one of them or above one of them
 pub open spec fn related(p: PathS, ex: Set<PathS>) -> bool { ex =~= Set::<PathS>::empty() || exists|a: PathS| ex.contains(a) && #[trigger] rel1(p, a) }
 pub open spec fn rel1(p: PathS, a: PathS) -> bool { under(p, a) || under(a, p) }
-// a listed child of `d` that is a directory the filter lets through
-pub open spec fn good_child(e: DirEntryS, files: Seq<IgnoreFile>) -> bool { e.ft is Ok && e.ft->Ok_0.dir && dir_passes(files, e.p) }
-pub open spec fn inv_queued(lst: Seq<DirEntryS>, n: int, files: Seq<IgnoreFile>, base: PathS, sk: Set<PathS>, tv: Seq<PathS>) -> bool {
-    forall|i: int| 0 <= i < n && good_child(#[trigger] lst[i], files) && !must_skip_spec(lst[i].p, base, sk) ==> tv.contains(lst[i].p)
-}
-pub open spec fn inv_pruned(lst: Seq<DirEntryS>, n: int, files: Seq<IgnoreFile>, base: PathS, sk: Set<PathS>) -> bool {
-    forall|i: int| 0 <= i < n && (#[trigger] lst[i]).ft is Ok && lst[i].ft->Ok_0.dir && !dir_passes(files, lst[i].p) ==> must_skip_spec(lst[i].p, base, sk)
+// a listed child of `d` that is a directory. Whether the ignore files ignore it is NOT decided while its parent is listed (the parent's own ignore
+// files, which may re-include it, are loaded only after the listing): it is decided when the child itself is visited
+pub open spec fn good_child(e: DirEntryS) -> bool { e.ft is Ok && e.ft->Ok_0.dir }
+pub open spec fn inv_queued(lst: Seq<DirEntryS>, n: int, base: PathS, sk: Set<PathS>, tv: Seq<PathS>) -> bool {
+    forall|i: int| 0 <= i < n && good_child(#[trigger] lst[i]) && !must_skip_spec(lst[i].p, base, sk) ==> tv.contains(lst[i].p)
 }
 // the listed entry `q = lst[n]` was put on the skip list (and everything beneath it dropped from the queue)
-pub proof fn lemma_after_skip(lst: Seq<DirEntryS>, n: int, d0: PathS, files: Seq<IgnoreFile>, base: PathS, sk0: Set<PathS>, sk1: Set<PathS>, tv1: Seq<PathS>, tv2: Seq<PathS>)
+pub proof fn lemma_after_skip(lst: Seq<DirEntryS>, n: int, d0: PathS, base: PathS, sk0: Set<PathS>, sk1: Set<PathS>, tv1: Seq<PathS>, tv2: Seq<PathS>)
     requires 0 <= n < lst.len(), forall|i: int| 0 <= i < lst.len() ==> parent_of((#[trigger] lst[i]).p) == Some(d0),
         sk1 == sk0.insert(lst[n].p), forall|x: PathS| #[trigger] tv2.contains(x) <==> tv1.contains(x) && !under(x, lst[n].p),
-        inv_queued(lst, n, files, base, sk0, tv1), inv_pruned(lst, n, files, base, sk0),
-    ensures inv_queued(lst, n + 1, files, base, sk1, tv2), inv_pruned(lst, n + 1, files, base, sk1),
+        inv_queued(lst, n, base, sk0, tv1),
+    ensures inv_queued(lst, n + 1, base, sk1, tv2),
 {
     let q = lst[n].p;
     assert(sk0.subset_of(sk1));
-    assert forall|i: int| 0 <= i < n + 1 && good_child(#[trigger] lst[i], files) && !must_skip_spec(lst[i].p, base, sk1) implies tv2.contains(lst[i].p) by {
+    assert forall|i: int| 0 <= i < n + 1 && good_child(#[trigger] lst[i]) && !must_skip_spec(lst[i].p, base, sk1) implies tv2.contains(lst[i].p) by {
         if i < n {
             if must_skip_spec(lst[i].p, base, sk0) { lemma_must_skip_mono(lst[i].p, base, sk0, sk1); }
             assert(tv1.contains(lst[i].p));
             if lst[i].p != q { lemma_sibling_not_under(lst[i].p, q, d0); }
         }
     }
-    assert forall|i: int| 0 <= i < n + 1 && (#[trigger] lst[i]).ft is Ok && lst[i].ft->Ok_0.dir && !dir_passes(files, lst[i].p) implies must_skip_spec(lst[i].p, base, sk1) by {
-        if i < n { lemma_must_skip_mono(lst[i].p, base, sk0, sk1); }
-    }
 }
 // the listed entry lst[n] was queued
-pub proof fn lemma_after_push(lst: Seq<DirEntryS>, n: int, files: Seq<IgnoreFile>, base: PathS, sk: Set<PathS>, tv1: Seq<PathS>)
-    requires 0 <= n < lst.len(), inv_queued(lst, n, files, base, sk, tv1), inv_pruned(lst, n, files, base, sk),
-        dir_passes(files, lst[n].p), // OBL:C14.visit_path.only_unignored_children_are_queued
-    ensures inv_queued(lst, n + 1, files, base, sk, tv1.push(lst[n].p)), inv_pruned(lst, n + 1, files, base, sk),
+pub proof fn lemma_after_push(lst: Seq<DirEntryS>, n: int, base: PathS, sk: Set<PathS>, tv1: Seq<PathS>)
+    requires 0 <= n < lst.len(), inv_queued(lst, n, base, sk, tv1),
+    ensures inv_queued(lst, n + 1, base, sk, tv1.push(lst[n].p)),
 { lemma_push_contains(tv1, lst[n].p); }
 // the listed entry lst[n] is already beneath a skipped directory, or is not a directory: nothing to do
-pub proof fn lemma_after_nothing(lst: Seq<DirEntryS>, n: int, files: Seq<IgnoreFile>, base: PathS, sk: Set<PathS>, tv1: Seq<PathS>)
-    requires 0 <= n < lst.len(), inv_queued(lst, n, files, base, sk, tv1), inv_pruned(lst, n, files, base, sk),
+pub proof fn lemma_after_nothing(lst: Seq<DirEntryS>, n: int, base: PathS, sk: Set<PathS>, tv1: Seq<PathS>)
+    requires 0 <= n < lst.len(), inv_queued(lst, n, base, sk, tv1),
         must_skip_spec(lst[n].p, base, sk) || (lst[n].ft is Ok && !lst[n].ft->Ok_0.dir),
-    ensures inv_queued(lst, n + 1, files, base, sk, tv1), inv_pruned(lst, n + 1, files, base, sk),
+    ensures inv_queued(lst, n + 1, base, sk, tv1),
 { }
